@@ -4,6 +4,7 @@ mod config;
 mod explore;
 mod model;
 mod ops;
+mod pair;
 mod props;
 mod report;
 mod snapshot;
